@@ -39,6 +39,7 @@ type Pkg struct {
 	Strip     []string          `json:"stripbuildtags"`
 	SelFuncs  []string          `json:"selfuncs"`       // if set, selector rewriting applies only inside these functions/methods
 	OutNames  bool              `json:"plainnames"`     // write lifted_<base> without package prefixing (overlay use)
+	ResetFunc string            `json:"resetfunc"`      // generate a function of this name that puts every package-level variable of the lifted files back to its initial value
 	LoopGuard string            `json:"loopguard"`      // name of a glue function called at the head of every for-loop body (bounded-progress detection)
 	KeepDirs  bool              `json:"keepdirectives"` // leave //go: directive comments alone (build constraints of helper packages)
 	Extract   []Extract         `json:"extract"`        // constants/variables copied verbatim from other files of the original package
@@ -97,6 +98,7 @@ func liftPkg(p Pkg, repo, goroot, out, verif string) {
 	}
 	hashes := map[string]string{}
 	have := map[string]bool{}
+	var resetFuncs []string
 	var files [][2]string // spec name, real path
 	for _, f := range p.Files {
 		src := strings.ReplaceAll(strings.ReplaceAll(f, "${REPO}", repo), "${GOROOT}", goroot)
@@ -129,6 +131,32 @@ func liftPkg(p Pkg, repo, goroot, out, verif string) {
 			fail("parse %s: %v", src, err)
 		}
 		rewrite(af, p)
+		var resets []string
+		if p.ResetFunc != "" {
+			for _, d := range af.Decls {
+				gd, ok := d.(*ast.GenDecl)
+				if !ok || gd.Tok != token.VAR {
+					continue
+				}
+				for _, sp := range gd.Specs {
+					vs := sp.(*ast.ValueSpec)
+					for i, n := range vs.Names {
+						if n.Name == "_" {
+							continue
+						}
+						var eb bytes.Buffer
+						switch {
+						case len(vs.Values) == len(vs.Names):
+							format.Node(&eb, fset, vs.Values[i])
+							resets = append(resets, fmt.Sprintf("\t%s = %s\n", n.Name, eb.String()))
+						case vs.Type != nil && len(vs.Values) == 0:
+							format.Node(&eb, fset, vs.Type)
+							resets = append(resets, fmt.Sprintf("\t{\n\t\tvar z %s\n\t\t%s = z\n\t}\n", eb.String(), n.Name))
+						}
+					}
+				}
+			}
+		}
 		for _, d := range af.Decls {
 			switch d := d.(type) {
 			case *ast.FuncDecl:
@@ -155,6 +183,12 @@ func liftPkg(p Pkg, repo, goroot, out, verif string) {
 			fail("print %s: %v", src, err)
 		}
 		name := strings.NewReplacer("/", "_").Replace(filepath.Base(src))
+		if p.ResetFunc != "" {
+			// appended to the file itself so that the file's imports are in scope
+			fn := p.ResetFunc + "_" + strings.NewReplacer(".", "_", "-", "_").Replace(name)
+			fmt.Fprintf(&buf, "\n// %s: generated by the lifter.\nfunc %s() {\n%s}\n", fn, fn, strings.Join(resets, ""))
+			resetFuncs = append(resetFuncs, fn)
+		}
 		outp := filepath.Join(dir, "lifted_"+name)
 		if err := os.WriteFile(outp, buf.Bytes(), 0o644); err != nil {
 			fail("%v", err)
@@ -265,6 +299,16 @@ func liftPkg(p Pkg, repo, goroot, out, verif string) {
 		}
 		data = []byte(strings.Join(lines, "\n"))
 		if err := os.WriteFile(filepath.Join(dir, "glue_"+base), data, 0o644); err != nil {
+			fail("%v", err)
+		}
+	}
+	if p.ResetFunc != "" {
+		calls := ""
+		for _, fn := range resetFuncs {
+			calls += "\t" + fn + "()\n"
+		}
+		src := fmt.Sprintf("package %s\n\n// %s puts every package-level variable of the lifted files back to its\n// initial value (generated by the lifter from the declarations found).\nfunc %s() {\n%s}\n", p.Name, p.ResetFunc, p.ResetFunc, calls)
+		if err := os.WriteFile(filepath.Join(dir, "lifted_reset.go"), []byte(src), 0o644); err != nil {
 			fail("%v", err)
 		}
 	}
